@@ -562,6 +562,33 @@ fn check(case: &Case) -> Verdict {
                             ensure!((l0 - l1).abs() <= 1e-6 * s.chord + 10.0 * tol, "C10/equivariance/caliper_chord", "caliper chord length {l0:e} before and {l1:e} after a rigid motion + reversal + start rotation (chord {:.4})", s.chord);
                             let (t0, t1) = ((k0.tangent.te - k0.tangent.le).norm(), (k1.tangent.te - k1.tangent.le).norm());
                             ensure!((t0 - t1).abs() <= 1e-6 * s.chord + 10.0 * tol, "C10/equivariance/caliper_tangent", "caliper resting line {t0:e} before and {t1:e} after the rigid motion");
+                            // defining constraints of the result, on the section as given, after the motion, and on its mirror
+                            // image (the hull is walked counter-clockwise whatever the input, so the resting leg is met
+                            // leading-to-trailing for one handedness of blade and trailing-to-leading for the other): the chord
+                            // runs from the end nearer the camber's front, and the resting-line ends are the feet of the chord ends
+                            let mirror = |c: &engeom::Curve2| -> Option<engeom::Curve2> {
+                                let pts: Vec<engeom::Point2> = c.points().iter().map(|p| engeom::Point2::new(-p.x, p.y)).collect();
+                                engeom::Curve2::from_points(&pts, c.tol(), false).ok()
+                            };
+                            let mut trio: Vec<(&str, engeom::airfoil::CaliperChord, engeom::Point2)> = vec![("as given", k0.clone(), geom.camber.at_front().point()), ("moved", k1.clone(), g2.camber.at_front().point())];
+                            if let (Some(ms), Some(mc)) = (mirror(&curve), mirror(&geom.camber)) {
+                                if let Ok(Ok(km)) = guarded(|| engeom::airfoil::caliper_chord_line(&ms, &mc).map_err(|e| e.to_string())) {
+                                    let lm = (km.chord.te - km.chord.le).norm();
+                                    ensure!((l0 - lm).abs() <= 1e-6 * s.chord + 10.0 * tol, "C10/equivariance/caliper_chord_mirrored", "caliper chord length {l0:e}, of the mirror image {lm:e}");
+                                    trio.push(("mirrored", km, mc.at_front().point()));
+                                }
+                            }
+                            for (which, k, front) in &trio {
+                                let along = k.tangent.te - k.tangent.le;
+                                let ch = k.chord.te - k.chord.le;
+                                let ctol = 1e-6 * s.chord + 10.0 * tol;
+                                ensure!((k.chord.le - front).norm() < (k.chord.te - front).norm(), format!("C10/caliper/chord_orientation/{which}"), "the chord's leading end is farther from the front of the camber line than its trailing end ({which})");
+                                ensure!(along.norm() > 0.5 * ch.norm() && along.dot(&ch) > 0.0, format!("C10/caliper/tangent_orientation/{which}"), "the resting line runs against the chord: {:?} vs {:?} ({which})", along, ch);
+                                let u = along / along.norm();
+                                let (fl, ft) = (k.chord.le - k.tangent.le, k.chord.te - k.tangent.te);
+                                ensure!(fl.dot(&u).abs() <= ctol && ft.dot(&u).abs() <= ctol, format!("C10/caliper/tangent_ends_are_feet/{which}"), "the resting-line ends are not the feet of the chord ends: offsets along the line {:e} and {:e} ({which})", fl.dot(&u), ft.dot(&u));
+                            }
+                            cx.label_if(trio.len() == 3, "caliper_mirrored");
                             cx.label("caliper_chord");
                         }
                     }
